@@ -271,6 +271,9 @@ func (e *env) expr(x ast.Expr) (string, gty) {
 		if tyS == "bool" {
 			ty = tBool
 		}
+		if tyS == "err" {
+			ty = tErr
+		}
 		found := false
 		for _, n := range e.f.onames {
 			found = found || n == name
@@ -538,6 +541,9 @@ func (e *env) skippable(s ast.Stmt) bool {
 	txt := e.t.p.str(call.Fun)
 	if e.f.capture && (strings.HasSuffix(txt, ".Emit") || strings.HasSuffix(txt, ".emit")) {
 		return false
+	}
+	if txt == "verifPoint" {
+		return true // the verification seam (a no-op without the build tag)
 	}
 	for _, suf := range []string{".Lock", ".Unlock", ".RLock", ".RUnlock", ".Emit", ".emit"} {
 		if strings.HasSuffix(txt, suf) {
@@ -818,6 +824,15 @@ func (e *env) block(stmts []ast.Stmt, fall string, ind string) string {
 			}
 			if sel, ok := call.Fun.(*ast.SelectorExpr); ok {
 				if id, ok := sel.X.(*ast.Ident); ok && id.Name == e.rname {
+					if cal, ok := e.t.funs[e.f.recv+"."+sel.Sel.Name]; ok && len(cal.resTypes) == 0 && cal.mutates && len(call.Args) == len(cal.params) && len(call.Args) > 0 {
+						args := []string{}
+						for _, a := range call.Args {
+							x, _ := e.expr(a)
+							args = append(args, "("+x+")")
+						}
+						sb.WriteString(fmt.Sprintf("%slet %s := %s %s %s\n", ind, e.rname, cal.lean, e.rname, strings.Join(args, " ")))
+						continue
+					}
 					if cal, ok := e.t.funs[e.f.recv+"."+sel.Sel.Name]; ok && len(cal.resTypes) == 0 && len(call.Args) == 0 {
 						if cal.mutates {
 							sb.WriteString(fmt.Sprintf("%slet %s := %s %s\n", ind, e.rname, cal.lean, e.rname))
@@ -943,10 +958,20 @@ func elseStmts(v *ast.IfStmt) []ast.Stmt {
 }
 
 func (e *env) ifStmt(v *ast.IfStmt, rest []ast.Stmt, fall string, ind string) string {
-	if v.Init != nil {
-		e.fail("if with an init statement")
-	}
 	var sb strings.Builder
+	if v.Init != nil {
+		// `if x := E; cond { ... }`: the definition first (x is not used after the statement in this subset)
+		as, ok := v.Init.(*ast.AssignStmt)
+		if !ok || as.Tok != token.DEFINE || len(as.Lhs) != 1 || len(as.Rhs) != 1 {
+			e.fail("if with an init statement that is not a definition")
+		}
+		x, ty := e.rhs(as.Rhs[0])
+		if ty == tUntyped {
+			ty = tInt
+		}
+		ln := e.setVar(as.Lhs[0].(*ast.Ident).Name, ty)
+		sb.WriteString(fmt.Sprintf("%slet %s : %s := %s\n", ind, ln, ty.lean(), x))
+	}
 	var c string
 	if cal := e.mutCall(v.Cond); cal != nil && cal.resTypes[0] == tBool {
 		// `if r.f() {` where f changes the receiver: the call first, then the test of its result
@@ -1188,7 +1213,14 @@ func (t *translator) translate(sp tspec) (res *tfun, why string) {
 		}
 		stmts = found
 		f.params, f.ptypes = nil, nil
-		sp.sliceFrom = sp.sliceAt
+		if len(sp.sliceOut) == 0 {
+			// the tail of the function: `return` statements keep their meaning, results are the function's
+			for _, r := range fd.Type.Results.List {
+				f.resTypes = append(f.resTypes, typeOfExpr(r.Type))
+			}
+		} else {
+			sp.sliceFrom = sp.sliceAt
+		}
 		if sp.captureEmit {
 			e.setVar("ev", tErr)
 		}
@@ -1436,6 +1468,8 @@ func transAll(v1, v2 *pkg) string {
 		{file: "batcher.go", recv: "batcher", name: "NeedsCapacity", lean: "v2_NeedsCapacity"},
 		{file: "batcher.go", recv: "batcher", name: "Start", lean: "v2_capacityArm", sliceAt: "if r.ratelimiter != nil {", sliceHas: "r.NeedsCapacity()", sliceN: 1, sliceOut: []string{"giveMeCalled", "giveMeArg"},
 			inputs: map[string]string{"r.ratelimiter != nil": "limited:bool", "r.emitRequest": "emitRequest:bool"}, captureCalls: map[string]string{"r.ratelimiter.GiveMe": "giveMe"}},
+		{file: "batcher.go", recv: "batcher", name: "Enqueue", lean: "v2_enqueueTail", sliceAt: "r.incTarget(int(op.Cost()))", sliceN: 4,
+			inputs: map[string]string{"op.Cost()": "cost:int", "r.buffer.enqueue(op, r.errorOnFullBuffer)": "enqErr:err"}},
 		{file: "batcher.go", recv: "batcher", name: "resume", lean: "v2_resume", view: "_ph"},
 		{file: "batcher.go", recv: "batcher", name: "Start", lean: "v2_pauseArm", view: "_ph", sliceAt: "r.Emit(PauseEvent", sliceN: 4, sliceOut: []string{"sleepCalled", "sleepArg"},
 			inputs: map[string]string{"r.pauseTime": "pauseTime:int"}, captureCalls: map[string]string{"time.Sleep": "sleep"}},
